@@ -71,6 +71,9 @@ def run_case(case, stats: Stats | None):
         for c in calls:
             tags = x.call(c)
             if stats is not None:
+                if "wild" in tags:
+                    stats.classes["call:zone_temp_wild"] += 1
+                    continue
                 stats.case([inst["gen"], [a["number"] for a in inst["acs"]], c], "accepted" in tags,
                            classes=tags + [f"call:{c[0]}", f"gen{inst['gen']}"],
                            sample={"gen": inst["gen"], "call": c, "outcome": tags[0]})
